@@ -257,24 +257,35 @@ func checkPrepare(r *Run, p *Prog, la *LockAnalysis) {
 	r.Ob("C02.R2.order", "Truncate and WriteAt run under the pointerPersist mutex", p.Position(trunc[0].Pos()), la.HeldAt(trunc[0], cls, ModeW) && la.HeldAt(wat[0], cls, ModeW), "two persists must not interleave their truncate/write pairs")
 	// same snapshot: the truncate length derives from len(pointers) and the payload from encode(start, pointers), both evaluated in prepare itself
 	ptrField := p.FieldOf(domainPkg, "index", "mu.pointers")
-	derivesFrom := func(arg ast.Expr, isSrc func(rhs ast.Expr) bool) bool {
+	// derivesFrom: arg contains an expression accepted by isSrc, directly or through the
+	// single definitions (in prepare) of the variables it mentions
+	var derives func(arg ast.Expr, isSrc func(rhs ast.Expr) bool, depth int) bool
+	derives = func(arg ast.Expr, isSrc func(rhs ast.Expr) bool, depth int) bool {
 		ok := false
 		ast.Inspect(arg, func(n ast.Node) bool {
+			if ok {
+				return false
+			}
+			if e, isExpr := n.(ast.Expr); isExpr && isSrc(e) {
+				ok = true
+				return false
+			}
 			id, isID := n.(*ast.Ident)
-			if !isID {
+			if !isID || depth >= 3 {
 				return true
 			}
 			o := lit.Pkg.TypesInfo.Uses[id]
 			if o == nil {
 				return true
 			}
-			if rhs, _, d := varDefinedBy(fn, o); d && isSrc(rhs) {
+			if rhs, _, d := varDefinedBy(fn, o); d && derives(rhs, isSrc, depth+1) {
 				ok = true
 			}
 			return true
 		})
 		return ok
 	}
+	derivesFrom := func(arg ast.Expr, isSrc func(rhs ast.Expr) bool) bool { return derives(arg, isSrc, 0) }
 	mentionsPointers := func(e ast.Expr) bool {
 		m := false
 		ast.Inspect(e, func(n ast.Node) bool {
@@ -299,7 +310,7 @@ func checkPrepare(r *Run, p *Prog, la *LockAnalysis) {
 		call, ok := ast.Unparen(rhs).(*ast.CallExpr)
 		return ok && IsFunc(Callee(fn, call), encFn) && len(call.Args) == 2 && objOf(fn, call.Args[0]) == startParam && mentionsPointers(call.Args[1])
 	})
-	offsetOK := len(wat[0].Args) == 2 && exprMentions(lit, wat[0].Args[1], startParam)
+	offsetOK := len(wat[0].Args) == 2 && derivesFrom(wat[0].Args[1], func(e ast.Expr) bool { return objOf(fn, e) == startParam && startParam != nil })
 	r.Ob("C02.R2.order", "truncate length and payload come from one snapshot taken in prepare", p.Position(trunc[0].Pos()), lenOK && payloadOK && offsetOK,
 		fmt.Sprintf("truncate length from len(pointers): %v; payload from encode(start, pointers): %v; write offset from start: %v", lenOK, payloadOK, offsetOK))
 }
@@ -774,7 +785,7 @@ func removesRenamed(p *Prog, top *FuncNode, rm CallSite, newNames map[types.Obje
 				for _, a := range call.Args[1:] {
 					n++
 					ao := top.Pkg.TypesInfo.Uses[identOf(a)]
-					if ao == nil || !newNames[ao] {
+					if ao == nil || !(newNames[ao] || renamedByHelper(p, top, ao, newNames)) {
 						ok = false
 					}
 				}
@@ -1316,4 +1327,59 @@ func checkLoadTolerance(r *Run, p *Prog) {
 		return true
 	})
 	r.Ob("C02.R8.load", "pointerPersist.load returns only Stat/ReadAt errors", p.Position(fn.Pos()), good && n > 0, detail+": an index image left by a crash inside the truncate/write pair must load (its odd records are harmless empty domains), otherwise every later Open of the channel fails")
+}
+
+// renamedByHelper: every assignment of o in top takes result k of a package-local helper
+// whose returns hand out, at position k, a rename target (or, next to a non-nil error,
+// anything).
+func renamedByHelper(p *Prog, top *FuncNode, o types.Object, newNames map[types.Object]bool) bool {
+	n, ok := 0, true
+	ast.Inspect(top.Body, func(x ast.Node) bool {
+		as, isAs := x.(*ast.AssignStmt)
+		if !isAs {
+			return true
+		}
+		for k, l := range as.Lhs {
+			if objOf(top, l) != o {
+				continue
+			}
+			n++
+			if len(as.Rhs) != 1 {
+				ok = false
+				continue
+			}
+			call, isCall := ast.Unparen(as.Rhs[0]).(*ast.CallExpr)
+			if !isCall {
+				ok = false
+				continue
+			}
+			h := p.ByObj[CalleeFunc(top, call)]
+			if h == nil || h.Body == nil || h.Pkg != top.Pkg {
+				ok = false
+				continue
+			}
+			inspectNoLit(h.Body, func(y ast.Node) bool {
+				ret, isRet := y.(*ast.ReturnStmt)
+				if !isRet {
+					return true
+				}
+				if k >= len(ret.Results) {
+					ok = false
+					return true
+				}
+				if newNames[objOf(h, ret.Results[k])] {
+					return true
+				}
+				// an error return: the last result is not the nil literal
+				last := ret.Results[len(ret.Results)-1]
+				if t := h.Pkg.TypesInfo.TypeOf(last); t != nil && isErrorType(t) && !isNilIdent(h, last) {
+					return true
+				}
+				ok = false
+				return true
+			})
+		}
+		return true
+	})
+	return ok && n > 0
 }
